@@ -313,6 +313,8 @@ pub struct DefaultHandler;
 impl Handler for DefaultHandler {}
 
 pub struct Topology {
+    /// USE of a keyspace that is not listed is accepted too (checks that probe name handling only)
+    pub any_keyspace_usable: bool,
     pub keyspaces: Vec<KeyspaceDef>,
     pub cluster_name: String,
     /// nodes visible in system.local / system.peers (indices into `nodes`)
@@ -449,6 +451,7 @@ impl MockCluster {
                 log: log.clone(),
                 nodes: RwLock::new(Vec::new()),
                 topo: RwLock::new(Topology {
+                    any_keyspace_usable: false,
                     keyspaces: spec.keyspaces.clone(),
                     cluster_name: if spec.cluster_name.is_empty() { "mock".into() } else { spec.cluster_name.clone() },
                     members: Vec::new(),
@@ -531,6 +534,9 @@ impl MockCluster {
 
     pub fn set_members(&self, members: Vec<usize>) {
         self.inner.topo.write().unwrap().members = members;
+    }
+    pub fn allow_any_keyspace(&self) {
+        self.inner.topo.write().unwrap().any_keyspace_usable = true;
     }
     pub fn set_keyspaces(&self, ks: Vec<KeyspaceDef>) {
         self.inner.topo.write().unwrap().keyspaces = ks;
@@ -988,8 +994,19 @@ fn handle_frame(inner: &Arc<ClusterInner>, node: &Arc<MockNode>, conn: &Arc<Conn
             reply_prepared(&rq, &def);
         }
         Request::Query { query, params } => {
-            if let Some((ks, _quoted)) = parse_use(query) {
-                handler.on_use(rq, ks);
+            if let Some((ks, quoted)) = parse_use(query) {
+                // as the server resolves it: an unquoted name is case-insensitive (folded to lower case),
+                // a quoted one is taken literally; the keyspace must exist
+                let effective = if quoted { ks } else { ks.to_lowercase() };
+                let known = {
+                    let t = inner.topo.read().unwrap();
+                    t.any_keyspace_usable || t.keyspaces.iter().any(|k| k.name == effective) || effective.starts_with("system")
+                };
+                if known {
+                    handler.on_use(rq, effective);
+                } else {
+                    rq.error(ErrorBody::simple(errcode::INVALID, &format!("Keyspace '{effective}' does not exist")));
+                }
             } else if is_system_query(query) {
                 let def = system_statement(inner, query);
                 answer_system(&rq, &def, params.page_size, params.paging_state.as_deref());
